@@ -339,7 +339,13 @@ def rule_ly_track(ctx):
     paths = run_method(repo, f, mk, summaries=rec)
     ok, why = len(paths) == 1 and paths[0].kind == "return", "outcome %s" % [(p.kind, p.value) for p in paths]
     if ok:
-        flags = [(e[1][1], e[1][2]) for e in log_of(paths[0].interp)]
+        fb = repo.mod(LY).func("from_Bar")
+
+        def arg(e, name):
+            # by position or by keyword, whichever the call used
+            i = fb.params.index(name)
+            return e[1][i] if i < len(e[1]) else e[2].get(name, ctx.repo.try_const(repo.mod(LY), fb.defaults.get(name)))
+        flags = [(arg(e, "showkey"), arg(e, "showtime")) for e in log_of(paths[0].interp)]
         want = []
         lk, lm = "C", (4, 4)
         for k, m in zip(keys, meters):
